@@ -132,7 +132,7 @@ theorem swapAt_spec {sub} (trans : ∀ a b c, sub a b = true → sub b c = true 
     (h1 : typed sub [r1] ind1 = true) (h2 : typed sub [r2] ind2 = true)
     (hc : ∀ i1 ∈ c1, ∀ i2 ∈ c2, ∃ p1 p2, ind1[i1]? = some p1 ∧ ind2[i2]? = some p2 ∧
       sub p2.ret p1.ret = true ∧ sub p1.ret p2.ret = true)
-    (h : swapAt ind1 ind2 c1 c2 tp = some (o1, o2, tp')) :
+    (h : swapAt ind1 ind2 c1 c2 tp = .ok (o1, o2, tp')) :
     typed sub [r1] o1 = true ∧ typed sub [r2] o2 = true ∧ o1.length + o2.length = ind1.length + ind2.length := by
   unfold swapAt at h
   split at h
@@ -154,10 +154,29 @@ theorem swapAt_spec {sub} (trans : ∀ a b c, sub a b = true → sub b c = true 
       refine ⟨by simpa [List.append_assoc] using hty1, by simpa [List.append_assoc] using hty2, ?_⟩
       simp [hl1, hl2]; omega
 
+/-- past the insertion position the loop only adds one terminal per argument -/
+theorem insertArgs_past {ps : Pset} {subl : List Prim} {position : Nat} :
+    ∀ (as : List Nat) (j : Nat) (tp : Tape) (r : List Prim) (tp' : Tape), position < j →
+      insertArgs ps subl position j as tp = .ok (r, tp') → r.length = as.length
+  | [], j, tp, r, tp', _, h => by simp [insertArgs] at h; simp [h.1.symm]
+  | b :: bs, j, tp, r, tp', hj, h => by
+    simp only [insertArgs] at h
+    split at h
+    · omega
+    · split at h
+      · simp at h
+      · split at h
+        · simp at h
+        · split at h
+          · simp at h
+          · rename_i w1 w2 hr
+            simp at h; obtain ⟨rfl, _⟩ := h
+            simp [insertArgs_past bs (j + 1) _ w1 w2 (by omega) hr]
+
 theorem insertArgs_spec {ps : Pset} (ok : PsetOK ps) {subl : List Prim} {τ : Nat}
     (hsub : typed ps.sub [τ] subl = true) {position : Nat} :
     ∀ (args : List Nat) (i : Nat) (tp : Tape) (r : List Prim) (tp' : Tape),
-      insertArgs ps subl position i args tp = some (r, tp') →
+      insertArgs ps subl position i args tp = .ok (r, tp') →
       (∀ k, i + k = position → k < args.length → args[k]? = some τ) →
       (∀ rest x, typed ps.sub (args ++ rest) (r ++ x) = typed ps.sub rest x) ∧
       (i ≤ position → position < i + args.length → r.length + 1 = args.length + subl.length)
@@ -168,11 +187,10 @@ theorem insertArgs_spec {ps : Pset} (ok : PsetOK ps) {subl : List Prim} {τ : Na
     simp only [insertArgs] at h
     split at h
     · rename_i hip
-      cases hrec : insertArgs ps subl position (i + 1) as tp with
-      | none => simp [hrec] at h
-      | some v =>
-        obtain ⟨r', tp''⟩ := v
-        simp [hrec] at h; obtain ⟨rfl, rfl⟩ := h
+      split at h
+      · simp at h
+      · rename_i r' tp'' hrec
+        simp at h; obtain ⟨rfl, rfl⟩ := h
         obtain ⟨ih1, ih2⟩ := insertArgs_spec ok hsub as (i + 1) tp r' tp'' hrec
           (by intro k hk hlt; omega)
         have ha : a = τ := by
@@ -184,29 +202,7 @@ theorem insertArgs_spec {ps : Pset} (ok : PsetOK ps) {subl : List Prim} {τ : Na
           simp only [List.cons_append, List.append_assoc]
           rw [typed_flatten (as ++ rest) (r' ++ x) hu]; exact ih1 rest x
         · intro _ _; simp
-          -- the recursive call is past the position: its length is |as|
-          have : ∀ (as : List Nat) (j : Nat) tp r tp', position < j →
-              insertArgs ps (flatten u) position j as tp = some (r, tp') → r.length = as.length := by
-            intro as
-            induction as with
-            | nil => intro j tp r tp' _ h; simp [insertArgs] at h; simp [h.1.symm]
-            | cons b bs ihb =>
-              intro j tp r tp' hj h
-              simp only [insertArgs] at h
-              split at h
-              · omega
-              · split at h
-                · simp at h
-                · split at h
-                  · simp at h
-                  · rename_i _ _ _ _ t3 tp3 _
-                    cases hr : insertArgs ps (flatten u) position (j + 1) bs tp3 with
-                    | none => simp [hr] at h
-                    | some w =>
-                      obtain ⟨w1, w2⟩ := w
-                      simp [hr] at h; obtain ⟨rfl, _⟩ := h
-                      simp [ihb (j + 1) tp3 w1 w2 (by omega) hr]
-          have := this as (i + 1) tp r' tp'' (by omega) hrec
+          have := insertArgs_past as (i + 1) tp r' tp'' (by omega) hrec
           omega
     · rename_i hip
       split at h
@@ -215,11 +211,10 @@ theorem insertArgs_spec {ps : Pset} (ok : PsetOK ps) {subl : List Prim} {τ : Na
         split at h
         · simp at h
         · rename_i term' tp2 hin
-          cases hrec : insertArgs ps subl position (i + 1) as tp2 with
-          | none => simp [hrec] at h
-          | some v =>
-            obtain ⟨r', tp''⟩ := v
-            simp [hrec] at h; obtain ⟨rfl, rfl⟩ := h
+          split at h
+          · simp at h
+          · rename_i r' tp'' hrec
+            simp at h; obtain ⟨rfl, rfl⟩ := h
             obtain ⟨ih1, ih2⟩ := insertArgs_spec ok hsub as (i + 1) tp2 r' tp'' hrec
               (by intro k hk hlt
                   have := hpos (k + 1) (by omega) (by simp; omega)
@@ -274,7 +269,7 @@ theorem nthArgSpan_spec : ∀ (k : Nat) (A : List Prim) (cs : List Tree) (B : Li
       rw [e2]; exact h2
 
 theorem reinstAll_spec {sub} {ss : List Nat} : ∀ (is : List Nat) (ind : List Prim) (tp : Tape) (out : List Prim) (tp' : Tape),
-    typed sub ss ind = true → reinstAll ind is tp = some (out, tp') →
+    typed sub ss ind = true → reinstAll ind is tp = .ok (out, tp') →
     typed sub ss out = true ∧ out.length = ind.length
   | [], ind, tp, out, tp', h, hr => by
     simp [reinstAll] at hr; obtain ⟨rfl, _⟩ := hr; exact ⟨h, rfl⟩
@@ -297,7 +292,7 @@ theorem reinstAll_spec {sub} {ss : List Nat} : ∀ (is : List Nat) (ind : List P
 
 theorem staticLimitLoop_spec {key : List Prim → Option Nat} {maxv : Nat} {keep : List (List Prim)} :
     ∀ (new : List (List Prim)) (tp : Tape) (outs : List (List Prim)) (tp' : Tape),
-      staticLimitLoop key maxv keep new tp = some (outs, tp') →
+      staticLimitLoop key maxv keep new tp = .ok (outs, tp') →
       outs.length = new.length ∧
       ∀ o ∈ outs, o ∈ keep ∨ (o ∈ new ∧ ∃ k, key o = some k ∧ k ≤ maxv)
   | [], tp, outs, tp', h => by
@@ -311,11 +306,10 @@ theorem staticLimitLoop_spec {key : List Prim → Option Nat} {maxv : Nat} {keep
       · split at h
         · simp at h
         · rename_i r tp1 hch
-          cases hrec : staticLimitLoop key maxv keep rest tp1 with
-          | none => simp [hrec] at h
-          | some v =>
-            obtain ⟨o, tp2⟩ := v
-            simp [hrec] at h; obtain ⟨rfl, _⟩ := h
+          split at h
+          · simp at h
+          · rename_i o tp2 hrec
+            simp at h; obtain ⟨rfl, _⟩ := h
             obtain ⟨h1, h2⟩ := staticLimitLoop_spec rest tp1 o tp2 hrec
             refine ⟨by simp [h1], ?_⟩
             intro x hx
@@ -325,11 +319,10 @@ theorem staticLimitLoop_spec {key : List Prim → Option Nat} {maxv : Nat} {keep
               · exact Or.inl h3
               · exact Or.inr ⟨List.mem_cons_of_mem _ h3, h4⟩
       · rename_i hle
-        cases hrec : staticLimitLoop key maxv keep rest tp with
-        | none => simp [hrec] at h
-        | some v =>
-          obtain ⟨o, tp2⟩ := v
-          simp [hrec] at h; obtain ⟨rfl, _⟩ := h
+        split at h
+        · simp at h
+        · rename_i o tp2 hrec
+          simp at h; obtain ⟨rfl, _⟩ := h
           obtain ⟨h1, h2⟩ := staticLimitLoop_spec rest tp o tp2 hrec
           refine ⟨by simp [h1], ?_⟩
           intro x hx
@@ -357,12 +350,7 @@ theorem size_le_sizeF : ∀ (ts : List Tree) (k : Nat) (c : Tree), ts[k]? = some
     have := size_le_sizeF ts k c (by simpa using h)
     simp [sizeF]; omega
 
-theorem popRange_spec {a b x : Nat} {tp tp' : Tape} (h : popRange a b tp = some (x, tp')) : a ≤ x ∧ x < b := by
-  cases tp with
-  | nil => simp [popRange] at h
-  | cons d tp =>
-    cases d <;> simp [popRange] at h
-    obtain ⟨⟨_, _, h1, h2⟩, rfl, _⟩ := h
-    exact ⟨h1, h2⟩
+theorem popRange_spec {a b x : Nat} {tp tp' : Tape} (h : popRange a b tp = .ok (x, tp')) : a ≤ x ∧ x < b :=
+  ⟨(popRange_ok h).1, (popRange_ok h).2.1⟩
 
 end GpTree
